@@ -601,3 +601,33 @@ func init() {
 	}
 	decodeModels["[]uint8"] = decodeModels["[]byte"]
 }
+
+// cryptoAxioms: documented facts about crypto.Signer.Public() of the standard library's own private key types.
+func (e *Engine) cryptoAxioms() string {
+	var sb strings.Builder
+	find := func(path, name string, ptr bool) *AnyCon {
+		for _, p := range e.allPackages() {
+			if p.Path() == path {
+				if o := p.Scope().Lookup(name); o != nil {
+					t := o.Type()
+					if ptr {
+						t = types.NewPointer(t)
+					}
+					return e.reg.AnyConOf(t)
+				}
+			}
+		}
+		return nil
+	}
+	priv, pub := find("crypto/ecdsa", "PrivateKey", true), find("crypto/ecdsa", "PublicKey", true)
+	if priv != nil && pub != nil {
+		// (*ecdsa.PrivateKey).Public() returns &priv.PublicKey
+		fmt.Fprintf(&sb, "(assert (forall ((p Addr)) (! (= (crypto_public (%s p)) (%s (mk-addr (aobj p) (pcons 0 (apath p))))) :pattern ((crypto_public (%s p))))))\n", priv.Con, pub.Con, priv.Con)
+	}
+	epriv, epub := find("crypto/ed25519", "PrivateKey", false), find("crypto/ed25519", "PublicKey", false)
+	if epriv != nil && epub != nil {
+		// ed25519.PrivateKey.Public() returns a 32-byte ed25519.PublicKey (a copy of priv[32:]) when the key has its 64 bytes
+		fmt.Fprintf(&sb, "(assert (forall ((s Slice)) (! (and ((_ is %s) (crypto_public (%s s))) (=> (= (slen s) 64) (= (slen (%s (crypto_public (%s s)))) 32))) :pattern ((crypto_public (%s s))))))\n", epub.Con, epriv.Con, epub.Sel, epriv.Con, epriv.Con)
+	}
+	return sb.String()
+}
